@@ -1,2 +1,674 @@
+(* C10 -- proofs *)
+From Coq Require Import ZArith QArith Qabs List Bool Lia Lqa Permutation Arith.
+Import ListNotations.
 From KD Require Import C10.Model C10.Spec.
-Lemma tmp : True. Proof. exact I. Qed.
+Open Scope Z_scope.
+
+(* ====================================================================== *)
+(* counting pixels                                                        *)
+(* ====================================================================== *)
+Lemma count_range (a b : Z) (n : nat) : 0 <= a ->
+  Z.of_nat (length (filter (fun r => (a <=? r) && (r <? b)) (map Z.of_nat (seq 0 n))))
+  = Z.max 0 (Z.min b (Z.of_nat n) - a).
+Proof.
+  intros Ha. induction n.
+  - simpl. lia.
+  - rewrite seq_S, map_app, filter_app, app_length, Nat2Z.inj_add, IHn.
+    simpl (0 + n)%nat. simpl map. simpl filter.
+    destruct (a <=? Z.of_nat n) eqn:E1; destruct (Z.of_nat n <? b) eqn:E2; simpl length; lia.
+Qed.
+
+Lemma filter_pair_length {A B} (f : A -> bool) (g : B -> bool) (a : A) (lb : list B) :
+  length (filter (fun p => f (fst p) && g (snd p)) (map (pair a) lb))
+  = if f a then length (filter g lb) else 0%nat.
+Proof.
+  induction lb as [|y lb IH]; simpl.
+  - destruct (f a); reflexivity.
+  - destruct (f a) eqn:Ef; simpl in *.
+    + destruct (g y); simpl; rewrite IH; reflexivity.
+    + exact IH.
+Qed.
+
+Lemma filter_prod_length {A B} (f : A -> bool) (g : B -> bool) (la : list A) (lb : list B) :
+  length (filter (fun p => f (fst p) && g (snd p)) (list_prod la lb))
+  = (length (filter f la) * length (filter g lb))%nat.
+Proof.
+  induction la as [|x la IH]; simpl; [reflexivity|].
+  rewrite filter_app, app_length, filter_pair_length, IH.
+  destruct (f x); simpl; lia.
+Qed.
+
+Lemma filter_box_length t l bo r (la lb : list Z) :
+  length (filter (in_box (t, l, bo, r)) (list_prod la lb))
+  = Nat.mul (length (filter (fun x => (t <=? x) && (x <? bo)) la)) (length (filter (fun y => (l <=? y) && (y <? r)) lb)).
+Proof.
+  rewrite <- filter_prod_length. f_equal. apply filter_ext. intros [row col]. simpl. rewrite !andb_assoc. reflexivity.
+Qed.
+
+Lemma length_zrange n : 0 <= n -> Z.of_nat (length (zrange n)) = n.
+Proof. intros. unfold zrange. rewrite map_length, seq_length. lia. Qed.
+
+Lemma total_pixels_eq h w : 0 <= h -> 0 <= w -> total_pixels h w = h * w.
+Proof.
+  intros. unfold total_pixels, pixels. rewrite prod_length, Nat2Z.inj_mul, !length_zrange by lia. reflexivity.
+Qed.
+
+Lemma pasted_pixels_eq h w b : 0 <= h -> 0 <= w -> box_in_bounds h w b -> pasted_pixels h w b = box_area b.
+Proof.
+  intros Hh Hw. destruct b as [[[t l] bo] r]. simpl. intros (Ht & Hbo & Hl & Hr).
+  unfold pasted_pixels, pixels.
+  rewrite (filter_box_length t l bo r), Nat2Z.inj_mul. unfold zrange.
+  rewrite !count_range by lia. rewrite !Z2Nat.id by lia.
+  replace (Z.min bo h) with bo by lia. replace (Z.min r w) with r by lia. rewrite !Z.max_r by lia. reflexivity.
+Qed.
+
+(* lamb_adjusted (the code's expression) is the fraction of pixels that keep sample i's value *)
+Lemma lambda_adjusted_is_area_fraction_l h w p b :
+  0 < h -> 0 < w -> box_in_bounds h w b ->
+  (lamb_adjusted h w b == retained_fraction h w (Cut p b))%Q.
+Proof.
+  intros Hh Hw Hb. unfold lamb_adjusted, retained_fraction.
+  rewrite total_pixels_eq, pasted_pixels_eq by (auto; lia).
+  assert (Hne : ~ (inject_Z (h * w) == 0)%Q).
+  { unfold Qeq, inject_Z; simpl. nia. }
+  unfold Zminus. rewrite inject_Z_plus, inject_Z_opp. field. exact Hne.
+Qed.
+
+Lemma lamb_adjusted_range h w b : 0 < h -> 0 < w -> box_in_bounds h w b ->
+  (0 <= lamb_adjusted h w b)%Q /\ (lamb_adjusted h w b <= 1)%Q.
+Proof.
+  intros Hh Hw Hb. destruct b as [[[t l] bo] r]. simpl in Hb. destruct Hb as (Ht & Hbo & Hl & Hr).
+  unfold lamb_adjusted, box_area.
+  assert (Ha : 0 <= (bo - t) * (r - l) <= h * w) by nia.
+  assert (Hp : 0 < h * w) by nia.
+  set (a := (bo - t) * (r - l)) in *. set (m := h * w) in *.
+  assert (Hm : (inject_Z 0 < inject_Z m)%Q) by (rewrite <- Zlt_Qlt; exact Hp).
+  change (inject_Z 0) with 0%Q in Hm.
+  assert (H0 : (0 <= inject_Z a / inject_Z m)%Q).
+  { apply Qle_shift_div_l; [exact Hm|]. rewrite Qmult_0_l. change 0%Q with (inject_Z 0). rewrite <- Zle_Qle. lia. }
+  assert (H1 : (inject_Z a / inject_Z m <= 1)%Q).
+  { apply Qle_shift_div_r; [exact Hm|]. rewrite Qmult_1_l. rewrite <- Zle_Qle. lia. }
+  split; lra.
+Qed.
+
+(* ====================================================================== *)
+(* clamping                                                               *)
+(* ====================================================================== *)
+Lemma clamp_in_bounds h w ch cw hf :
+  0 <= ch < h -> 0 <= cw < w -> 0 <= fst hf -> 0 <= snd hf -> box_in_bounds h w (clamp_box h w ch cw hf).
+Proof. destruct hf as [hh wh]. simpl. intros. lia. Qed.
+
+(* ====================================================================== *)
+(* shuffle                                                                *)
+(* ====================================================================== *)
+Lemma bind_inv {A B} (m : M A) (f : A -> M B) tr b tr' :
+  bind m f tr = Some (b, tr') -> exists a tr1, m tr = Some (a, tr1) /\ f a tr1 = Some (b, tr').
+Proof. unfold bind. destruct (m tr) as [[a tr1]|]; [|discriminate]. intros. eauto. Qed.
+
+Lemma shuffle_twice m it tr r1 pm tr1 tr2 r2 pm2 tr3 :
+  shuffle m it None tr = Some ((r1, pm), tr1) ->
+  shuffle m it pm tr2 = Some ((r2, pm2), tr3) -> r2 = r1 /\ tr3 = tr2.
+Proof.
+  unfold shuffle. destruct (Nat.eqb (length it) 1).
+  - unfold ret. intros H1 H2. inversion H1; subst. inversion H2; subst. auto.
+  - destruct m.
+    + unfold ret. intros H1 H2. inversion H1; subst. inversion H2; subst. auto.
+    + destruct (Nat.even (length it)); unfold ret, fail; intros H1 H2; [|discriminate].
+      inversion H1; subst. inversion H2; subst. auto.
+    + intros H1. apply bind_inv in H1. destruct H1 as (p & t & Hp & H1). unfold ret in H1. inversion H1; subst.
+      intros H2. inversion H2; subst. auto.
+Qed.
+
+(* the suffix relation on traces: draws consumed in order *)
+Definition suffix (a b : trace) : Prop := exists pre, b = pre ++ a.
+Lemma suffix_refl a : suffix a a. Proof. exists []. reflexivity. Qed.
+Lemma suffix_trans a b c : suffix a b -> suffix b c -> suffix a c.
+Proof. intros [p ->] [q ->]. exists (q ++ p). rewrite app_assoc. reflexivity. Qed.
+Lemma suffix_cons d a : suffix a (d :: a). Proof. exists [d]. reflexivity. Qed.
+Lemma suffix_ok a b : suffix a b -> trace_ok b -> trace_ok a.
+Proof. intros [p ->] H. apply Forall_app in H. tauto. Qed.
+Lemma suffix_in a b d : suffix a b -> In d a -> In d b.
+Proof. intros [p ->] H. apply in_or_app. auto. Qed.
+
+Lemma next_unit_inv tr u tr' : next_unit tr = Some (u, tr') -> tr = DUnit u :: tr'.
+Proof. destruct tr as [|[] ?]; simpl; try discriminate. intros H; inversion H; subst; auto. Qed.
+Lemma next_units_inv n tr u tr' : next_units n tr = Some (u, tr') -> tr = DUnits u :: tr' /\ length u = n.
+Proof. destruct tr as [|[] ?]; simpl; try discriminate. destruct (Nat.eqb (length us) n) eqn:E; [|discriminate].
+  intros H; inversion H; subst. apply Nat.eqb_eq in E. auto. Qed.
+Lemma next_beta_inv a tr u tr' : next_beta a tr = Some (u, tr') -> exists a', tr = DBeta a' u :: tr'.
+Proof. destruct tr as [|[] ?]; simpl; try discriminate. destruct (Qeqb a a0); [|discriminate].
+  intros H; inversion H; subst. eauto. Qed.
+Lemma next_betas_inv a n tr u tr' : next_betas a n tr = Some (u, tr') -> exists a', tr = DBetas a' u :: tr' /\ length u = n.
+Proof. destruct tr as [|[] ?]; simpl; try discriminate. destruct (Qeqb a a0 && Nat.eqb (length xs) n) eqn:E; [|discriminate].
+  intros H; inversion H; subst. apply andb_true_iff in E. destruct E as [_ E]. apply Nat.eqb_eq in E. eauto. Qed.
+Lemma next_ints_inv hi n tr u tr' : next_ints hi n tr = Some (u, tr') -> tr = DInts hi u :: tr' /\ length u = n.
+Proof. destruct tr as [|[] ?]; simpl; try discriminate. destruct ((hi =? hi0) && Nat.eqb (length xs) n) eqn:E; [|discriminate].
+  intros H; inversion H; subst. apply andb_true_iff in E. destruct E as [E1 E]. apply Nat.eqb_eq in E. apply Z.eqb_eq in E1. subst. auto. Qed.
+Lemma next_perm_inv n tr u tr' : next_perm n tr = Some (u, tr') -> tr = DPerm u :: tr' /\ length u = n.
+Proof. destruct tr as [|[] ?]; simpl; try discriminate. destruct (Nat.eqb (length p) n) eqn:E; [|discriminate].
+  intros H; inversion H; subst. apply Nat.eqb_eq in E. auto. Qed.
+
+Lemma shuffle_suffix m it pm tr r pm' tr' : shuffle m it pm tr = Some ((r, pm'), tr') -> suffix tr' tr.
+Proof.
+  unfold shuffle. destruct (Nat.eqb (length it) 1).
+  - unfold ret. intros H; inversion H; subst. apply suffix_refl.
+  - destruct m; unfold ret.
+    + intros H; inversion H; subst. apply suffix_refl.
+    + destruct (Nat.even (length it)); [|discriminate]. intros H; inversion H; subst. apply suffix_refl.
+    + destruct pm.
+      * intros H; inversion H; subst. apply suffix_refl.
+      * intros H. apply bind_inv in H. destruct H as (p & t & Hp & H). inversion H; subst.
+        apply next_perm_inv in Hp. destruct Hp as [-> _]. apply suffix_cons.
+Qed.
+
+(* ---- the partner list the shuffle produces on arange(n) ---- *)
+Lemma nth_rev_seq n i : (i < n)%nat -> nth i (rev (seq 0 n)) 0%nat = (n - 1 - i)%nat.
+Proof.
+  intros Hi. rewrite rev_nth by (rewrite seq_length; lia). rewrite seq_length.
+  rewrite seq_nth by lia. lia.
+Qed.
+
+Lemma roll1_seq n i : (i < n)%nat -> nth i (roll1 (seq 0 n)) 0%nat = ((i + n - 1) mod n)%nat.
+Proof.
+  intros Hi. destruct n as [|n]; [lia|].
+  assert (E : roll1 (seq 0 (S n)) = n :: seq 0 n).
+  { unfold roll1. rewrite seq_S, rev_app_distr. simpl. rewrite rev_involutive. reflexivity. }
+  rewrite E. clear E.
+  destruct i as [|i].
+  - simpl nth. replace (0 + S n - 1)%nat with n by lia. rewrite Nat.mod_small by lia. reflexivity.
+  - simpl nth. rewrite seq_nth by lia.
+    replace (S i + S n - 1)%nat with (i + 1 * S n)%nat by lia.
+    rewrite Nat.mod_add by lia. rewrite Nat.mod_small by lia. reflexivity.
+Qed.
+
+Lemma perm_lt p n k : Permutation p (seq 0 n) -> In k p -> (k < n)%nat.
+Proof. intros HP Hk. apply (Permutation_in _ HP) in Hk. apply in_seq in Hk. lia. Qed.
+
+Lemma index_by_seq n p i : Permutation p (seq 0 n) -> (i < length p)%nat ->
+  nth i (index_by (seq 0 n) p) 0%nat = nth i p 0%nat.
+Proof.
+  intros HP Hi. unfold index_by.
+  rewrite (nth_indep _ 0%nat (nth 0%nat (seq 0 n) 0%nat)) by (rewrite map_length; exact Hi).
+  rewrite (map_nth (fun k => nth k (seq 0 n) 0%nat) p 0%nat i).
+  assert (nth i p 0 < n)%nat by (eapply perm_lt; eauto; apply nth_In; exact Hi).
+  rewrite seq_nth by lia. reflexivity.
+Qed.
+
+(* partner list of a successful first shuffle of arange(n) *)
+Lemma shuffle_partners m n tr r pm tr' :
+  shuffle m (seq 0 n) None tr = Some ((r, pm), tr') -> trace_ok tr ->
+  exists perm, (m = Random -> n <> 1%nat -> In (DPerm perm) tr /\ Permutation perm (seq 0 n)) /\
+    length r = n /\ forall i, (i < n)%nat -> nth i r 0%nat = mode_partner m n perm i.
+Proof.
+  unfold shuffle, mode_partner. rewrite seq_length. destruct (Nat.eqb n 1) eqn:En.
+  - unfold ret. intros H _; inversion H; subst. apply Nat.eqb_eq in En. subst n. exists []. split; [congruence|].
+    split; [reflexivity|]. intros i Hi. assert (i = 0)%nat by lia. subst. reflexivity.
+  - apply Nat.eqb_neq in En. destruct m; unfold ret.
+    + intros H _; inversion H; subst. exists []. split; [congruence|]. split.
+      * unfold roll1. destruct (rev (seq 0 n)) eqn:E.
+        -- apply (f_equal (@length nat)) in E. rewrite rev_length, seq_length in E. simpl in *. lia.
+        -- simpl. rewrite rev_length. apply (f_equal (@length nat)) in E. rewrite rev_length, seq_length in E. simpl in E. lia.
+      * intros. apply roll1_seq; auto.
+    + destruct (Nat.even n); [|discriminate]. intros H _; inversion H; subst. exists []. split; [congruence|].
+      split; [rewrite rev_length, seq_length; reflexivity|]. intros. apply nth_rev_seq; auto.
+    + intros H Hok. apply bind_inv in H. destruct H as (p & t & Hp & H). inversion H; subst.
+      apply next_perm_inv in Hp. destruct Hp as [-> Hl]. exists p.
+      assert (HP : Permutation p (seq 0 n)).
+      { inversion Hok as [|? ? Hd Hrest]. simpl in Hd. rewrite Hl in Hd. exact Hd. }
+      split; [intros; split; [left; reflexivity| exact HP]|].
+      split; [unfold index_by; rewrite map_length; exact Hl|].
+      intros. apply index_by_seq; auto. lia.
+Qed.
+
+Lemma roll1_length l : length (roll1 l) = length l.
+Proof.
+  unfold roll1. destruct (rev l) eqn:E; apply (f_equal (@length nat)) in E; rewrite rev_length in E; simpl in *.
+  - lia.
+  - rewrite rev_length. lia.
+Qed.
+
+Lemma shuffle_len m n tr r pm tr' :
+  shuffle m (seq 0 n) None tr = Some ((r, pm), tr') -> length r = n.
+Proof.
+  unfold shuffle. rewrite seq_length. destruct (Nat.eqb n 1).
+  - unfold ret. intros H; inversion H; subst. apply seq_length.
+  - destruct m; unfold ret.
+    + intros H; inversion H; subst. rewrite roll1_length. apply seq_length.
+    + destruct (Nat.even n); [|discriminate]. intros H; inversion H; subst. rewrite rev_length. apply seq_length.
+    + intros H. apply bind_inv in H. destruct H as (p & t & Hp & H). inversion H; subst.
+      apply next_perm_inv in Hp. destruct Hp as [_ Hl]. unfold index_by. rewrite map_length. exact Hl.
+Qed.
+
+(* ====================================================================== *)
+(* list helpers                                                           *)
+(* ====================================================================== *)
+Lemma nth_map_seq {A} (f : nat -> A) n i d : (i < n)%nat -> nth i (map f (seq 0 n)) d = f i.
+Proof.
+  intros Hi. rewrite (nth_indep _ d (f 0%nat)) by (rewrite map_length, seq_length; exact Hi).
+  rewrite map_nth. rewrite seq_nth by exact Hi. reflexivity.
+Qed.
+
+Lemma nth_map_d {A B} (f : A -> B) l i d d' : (i < length l)%nat -> nth i (map f l) d' = f (nth i l d).
+Proof.
+  intros Hi. rewrite (nth_indep _ d' (f d)) by (rewrite map_length; exact Hi). apply map_nth.
+Qed.
+
+Lemma where3_length c a b n : length c = n -> length a = n -> length b = n -> length (where3 c a b) = n.
+Proof.
+  revert a b n. induction c as [|x c IH]; intros a b n Hc Ha Hb; simpl in *.
+  - auto.
+  - destruct a; [simpl in *; lia|]. destruct b; [simpl in *; lia|]. simpl in *.
+    destruct n; [lia|]. f_equal. apply IH; lia.
+Qed.
+
+Lemma where3_nth c a b n i : length c = n -> length a = n -> length b = n -> (i < n)%nat ->
+  nth i (where3 c a b) None = if nth i c false then nth i a None else nth i b None.
+Proof.
+  revert a b n i. induction c as [|x c IH]; intros a b n i Hc Ha Hb Hi; simpl in *.
+  - lia.
+  - destruct a; [simpl in *; lia|]. destruct b; [simpl in *; lia|]. simpl in *.
+    destruct n; [lia|]. destruct i; [reflexivity|]. apply (IH a b n); lia.
+Qed.
+
+Lemma sequence_length {A} (l : list (option A)) l' : sequence l = Some l' -> length l' = length l.
+Proof.
+  revert l'. induction l as [|[x|] l IH]; simpl; intros l' H.
+  - inversion H; reflexivity.
+  - destruct (sequence l); [|discriminate]. simpl in H. inversion H; subst. simpl. f_equal. auto.
+  - discriminate.
+Qed.
+
+Lemma sequence_nth {A} (l : list (option A)) l' i d : sequence l = Some l' -> (i < length l)%nat ->
+  nth i l None = Some (nth i l' d).
+Proof.
+  revert l' i. induction l as [|[x|] l IH]; simpl; intros l' i H Hi.
+  - lia.
+  - destruct (sequence l) eqn:E; [|discriminate]. simpl in H. inversion H; subst.
+    destruct i; [reflexivity|]. simpl. apply IH; auto. lia.
+  - discriminate.
+Qed.
+
+Lemma nth_repeat_none {A} n i : nth i (repeat (@None A) n) None = None.
+Proof. revert i. induction n; destruct i; simpl; auto. Qed.
+
+(* ====================================================================== *)
+(* get_random_bbox                                                        *)
+(* ====================================================================== *)
+Lemma zip3_boxes h w chs cws hv n :
+  length chs = n -> length cws = n -> length hv = n ->
+  length (zip3 chs cws hv) = n /\
+  (Forall (fun x => 0 <= x < h) chs -> Forall (fun x => 0 <= x < w) cws -> halves_ok hv ->
+   Forall (box_in_bounds h w) (map (fun '(ch, cw, hf) => clamp_box h w ch cw hf) (zip3 chs cws hv))).
+Proof.
+  revert cws hv n. induction chs as [|a chs IH]; intros cws hv n H1 H2 H3.
+  - simpl. split; [auto|]. intros. constructor.
+  - destruct cws as [|b cws]; [simpl in *; lia|]. destruct hv as [|hf hv]; [simpl in *; lia|].
+    destruct n; [simpl in *; lia|]. simpl in *.
+    destruct (IH cws hv n) as [L F]; try lia. split; [lia|].
+    intros Fa Fb Fc. inversion Fa; subst. inversion Fb; subst. inversion Fc; subst.
+    constructor; [|apply F; auto].
+    destruct hf as [hh wh]. apply clamp_in_bounds; simpl; tauto.
+Qed.
+
+Lemma get_random_bbox_inv h w n hv tr bb ls tr' :
+  get_random_bbox h w n hv tr = Some ((bb, ls), tr') ->
+  length bb = n /\ ls = map (lamb_adjusted h w) bb /\ suffix tr' tr /\
+  (trace_ok tr -> halves_ok hv -> Forall (box_in_bounds h w) bb).
+Proof.
+  unfold get_random_bbox. intros H.
+  apply bind_inv in H. destruct H as (chs & t1 & H1 & H).
+  apply bind_inv in H. destruct H as (cws & t2 & H2 & H).
+  apply next_ints_inv in H1. destruct H1 as [-> L1]. apply next_ints_inv in H2. destruct H2 as [-> L2].
+  destruct (Nat.eqb (length hv) n) eqn:E; simpl in H; [|discriminate].
+  apply Nat.eqb_eq in E. unfold ret in H. inversion H; subst bb ls tr'. clear H.
+  destruct (zip3_boxes h w chs cws hv n L1 L2 E) as [L F].
+  split; [rewrite map_length; exact L|]. split; [reflexivity|].
+  split; [eapply suffix_trans; apply suffix_cons|].
+  intros Hok Hh. inversion Hok as [|? ? Ha Hok']. inversion Hok' as [|? ? Hb _]. subst. apply F; auto.
+Qed.
+
+(* ====================================================================== *)
+(* what a successful collate looks like, per sample                       *)
+(* ====================================================================== *)
+Definition view (c : cfg) (hv : list (Z * Z)) (tr : trace) (r : result)
+           (partners : list nat) (cut : nat -> bool) (lam : nat -> Q) (bx : nat -> box) : Prop :=
+  let n := bsz c in
+  length partners = n /\
+  (exists trA pm trB, shuffle (shuf c) (seq 0 n) None trA = Some ((partners, pm), trB) /\ suffix trA tr) /\
+  forall i, (i < n)%nat ->
+    nth i (imgs r) Keep = (if cut i then Cut (nth i partners 0%nat) (bx i) else Mix (nth i partners 0%nat) (lam i)) /\
+    lam_of r i = lam i /\
+    (forall ls, labs r = Some ls -> nth i ls (0%nat, 0%Q) = (nth i partners 0%nat, lam i)) /\
+    (cut i = true -> lam i = lamb_adjusted (img_h c) (img_w c) (bx i) /\
+                     (trace_ok tr -> halves_ok hv -> box_in_bounds (img_h c) (img_w c) (bx i))) /\
+    (cut i = false -> trace_ok tr -> beta_ok (lam i)).
+
+Ltac bi H a t H1 := apply bind_inv in H; destruct H as (a & t & H1 & H).
+
+Lemma apply_suffix c tr ap t0 :
+  match apply_mode c with
+  | PerBatch => u <- next_unit;; ret (repeat (Qltb u (total_p c)) (bsz c))
+  | PerSample => us <- next_units (bsz c);; ret (map (fun u : Q => Qltb u (total_p c)) us)
+  end tr = Some (ap, t0) -> suffix t0 tr.
+Proof.
+  destruct (apply_mode c); intros H.
+  - bi H u t Hu. inversion H; subst. apply next_unit_inv in Hu. subst. apply suffix_cons.
+  - bi H u t Hu. inversion H; subst. apply next_units_inv in Hu. destruct Hu as [-> _]. apply suffix_cons.
+Qed.
+
+Lemma labs_inv m n pm t5 ys t6 (x2 : list nat) trA trB (g : list nat -> list lab_desc) (has_y : bool) :
+  shuffle m (seq 0 n) None trA = Some ((x2, pm), trB) ->
+  (if has_y then ' (y2, _) <- shuffle m (seq 0 n) pm;; ret (Some (g y2)) else ret None) t5 = Some (ys, t6) ->
+  (ys = None \/ ys = Some (g x2)) /\ t6 = t5.
+Proof.
+  intros Hs. destruct has_y; intros H.
+  - bi H yp t Hy. destruct yp as [y2 pm2]. inversion H; subst.
+    destruct (shuffle_twice _ _ _ _ _ _ _ _ _ _ Hs Hy) as [-> ->]. auto.
+  - inversion H; subst. auto.
+Qed.
+
+Lemma collate_inv c hv tr r tr' :
+  collate c hv tr = Some (r, tr') ->
+  exists partners cut lam bx, view c hv tr r partners cut lam bx.
+Proof.
+  unfold collate. destruct (negb (has_item (tokens c) TX)); [discriminate|].
+  intros H. bi H ap t0 Hap. apply apply_suffix in Hap.
+  destruct (lamb_mode c).
+  - (* lamb_mode batch *)
+    bi H u t1 Hu. apply next_unit_inv in Hu. subst t0.
+    set (uc := Qltb (u * total_p c) (cutmix_p c)) in *.
+    bi H alpha t2 Hal.
+    assert (t2 = t1).
+    { destruct (if uc then cutmix_alpha c else mixup_alpha c); simpl in Hal; inversion Hal; auto. }
+    subst t2. clear Hal.
+    bi H lamb t3 Hl. apply next_beta_inv in Hl. destruct Hl as [a' ->].
+    bi H xp t4 Hsh. destruct xp as [x2 pm].
+    bi H xl t5 Hx. destruct xl as [xs lamb'].
+    bi H ys t6 Hy. inversion H; subst r tr'. clear H.
+    pose proof (shuffle_len _ _ _ _ _ _ Hsh) as Lx.
+    pose proof (shuffle_suffix _ _ _ _ _ _ _ Hsh) as S34.
+    assert (S3 : suffix t3 tr).
+    { eapply suffix_trans; [|exact Hap]. eapply suffix_trans; [|apply suffix_cons]. apply suffix_cons. }
+    eapply labs_inv in Hy; [|exact Hsh]. destruct Hy as [Hys _].
+    destruct uc eqn:Euc.
+    + (* cutmix for the whole batch *)
+      bi Hx bl t Hb. destruct bl as [bbox ll].
+      destruct bbox as [|b0 bbox]; [discriminate|]. destruct ll as [|l0 ll]; [discriminate|].
+      inversion Hx; subst xs lamb' t. clear Hx.
+      apply get_random_bbox_inv in Hb. destruct Hb as (Lb & Hll & S45 & Fb).
+      simpl in Hll. inversion Hll; subst l0.
+      exists x2, (fun _ => true), (fun _ => lamb_adjusted (img_h c) (img_w c) b0), (fun _ => b0).
+      split; [exact Lx|]. split; [exists t3, pm, t4; auto|].
+      intros i Hi. simpl. split; [rewrite (nth_map_d _ _ _ 0%nat) by lia; reflexivity|]. split; [reflexivity|].
+      split.
+      { intros ls Hls. destruct Hys as [E|E]; rewrite E in Hls; inversion Hls; subst.
+        rewrite (nth_map_d _ _ _ 0%nat) by lia. reflexivity. }
+      split; [|discriminate]. intros _. split; [reflexivity|].
+      intros Hok Hh. assert (Hok4 : trace_ok t4) by (eapply suffix_ok; [|exact Hok]; eapply suffix_trans; eauto).
+      specialize (Fb Hok4 Hh). inversion Fb; auto.
+    + (* mixup for the whole batch *)
+      inversion Hx; subst xs lamb' t5. clear Hx.
+      exists x2, (fun _ => false), (fun _ => lamb), (fun _ => (0, 0, 0, 0)).
+      split; [exact Lx|]. split; [exists t3, pm, t4; auto|].
+      intros i Hi. simpl. split; [rewrite (nth_map_d _ _ _ 0%nat) by lia; reflexivity|]. split; [reflexivity|].
+      split.
+      { intros ls Hls. destruct Hys as [E|E]; rewrite E in Hls; inversion Hls; subst.
+        rewrite (nth_map_d _ _ _ 0%nat) by lia. reflexivity. }
+      split; [discriminate|]. intros _ Hok.
+      assert (Hok1 : trace_ok (DBeta a' lamb :: t3)).
+      { eapply suffix_ok; [|exact Hok]. eapply suffix_trans; [|exact Hap]. apply suffix_cons. }
+      inversion Hok1; subst. assumption.
+  - (* lamb_mode sample *)
+    bi H us t1 Hu. apply next_units_inv in Hu. destruct Hu as [-> Lus].
+    set (uc := map (fun u => Qltb (u * total_p c) (cutmix_p c)) us) in *.
+    assert (Luc : length uc = bsz c) by (unfold uc; rewrite map_length; exact Lus).
+    bi H ml t2 Hml.
+    assert (Hm : length ml = bsz c /\ suffix t2 t1 /\
+                 forall i, (i < bsz c)%nat -> forall x, nth i ml None = Some x -> trace_ok t1 -> beta_ok x).
+    { destruct (Qltb 0 (mixup_p c)).
+      - bi Hml a t Ha. bi Hml l t' Hb. inversion Hml; subst ml t'. clear Hml.
+        assert (t = t1) by (destruct (mixup_alpha c); simpl in Ha; inversion Ha; auto). subst t.
+        apply next_betas_inv in Hb. destruct Hb as (a' & -> & Ll).
+        split; [rewrite map_length; exact Ll|]. split; [apply suffix_cons|].
+        intros i Hi x Hx Hok. rewrite (nth_map_d _ _ _ 0%Q) in Hx by lia. inversion Hx; subst.
+        inversion Hok as [|? ? Hd _]. simpl in Hd. eapply Forall_forall in Hd; [exact Hd|]. apply nth_In. lia.
+      - inversion Hml; subst. split; [apply repeat_length|]. split; [apply suffix_refl|].
+        intros i Hi x Hx. rewrite nth_repeat_none in Hx. discriminate. }
+    destruct Hm as (Lml & S21 & Hbeta). clear Hml.
+    bi H bc t3 Hbc. destruct bc as [bbox cl].
+    assert (Hc : length cl = bsz c /\ suffix t3 t2 /\
+                 forall i, (i < bsz c)%nat -> forall x, nth i cl None = Some x ->
+                   x = lamb_adjusted (img_h c) (img_w c) (nth i bbox (0, 0, 0, 0)) /\
+                   (trace_ok t2 -> halves_ok hv -> box_in_bounds (img_h c) (img_w c) (nth i bbox (0, 0, 0, 0)))).
+    { destruct (Qltb 0 (cutmix_p c)).
+      - bi Hbc a t Ha. bi Hbc l t' Hb. bi Hbc bl t'' Hg. destruct bl as [bb ll]. inversion Hbc; subst bbox cl t''. clear Hbc.
+        assert (t = t2) by (destruct (cutmix_alpha c); simpl in Ha; inversion Ha; auto). subst t.
+        apply next_betas_inv in Hb. destruct Hb as (a' & -> & Ll).
+        apply get_random_bbox_inv in Hg. destruct Hg as (Lb & -> & S & Fb).
+        split; [rewrite !map_length; exact Lb|].
+        split; [eapply suffix_trans; [exact S| apply suffix_cons]|].
+        intros i Hi x Hx. rewrite (nth_map_d _ _ _ 0%Q) in Hx by (rewrite map_length; lia). inversion Hx; subst.
+        split; [apply nth_map_d; lia|].
+        intros Hok Hh. assert (Hok' : trace_ok t') by (inversion Hok; auto).
+        specialize (Fb Hok' Hh). eapply Forall_forall in Fb; [exact Fb|]. apply nth_In. lia.
+      - inversion Hbc; subst. split; [apply repeat_length|]. split; [apply suffix_refl|].
+        intros i Hi x Hx. rewrite nth_repeat_none in Hx. discriminate. }
+    destruct Hc as (Lcl & S32 & Hcut). clear Hbc.
+    bi H lamb t4 Hseq.
+    destruct (sequence (where3 uc cl ml)) as [lamb0|] eqn:Eseq; simpl in Hseq; [|discriminate].
+    inversion Hseq; subst lamb0 t4. clear Hseq.
+    bi H xp t5 Hsh. destruct xp as [x2 pm].
+    bi H ys t6 Hy. inversion H; subst r tr'. clear H.
+    pose proof (shuffle_len _ _ _ _ _ _ Hsh) as Lx.
+    eapply labs_inv in Hy; [|exact Hsh]. destruct Hy as [Hys _].
+    pose proof (where3_length _ _ _ _ Luc Lcl Lml) as Lw.
+    pose proof (sequence_length _ _ Eseq) as Ll. rewrite Lw in Ll.
+    assert (S1 : suffix t1 tr) by (eapply suffix_trans; [apply suffix_cons|exact Hap]).
+    exists x2, (fun i => nth i uc false), (fun i => qnth i lamb), (fun i => nth i bbox (0, 0, 0, 0)).
+    split; [exact Lx|].
+    split. { exists t3, pm, t5. split; [exact Hsh|]. eapply suffix_trans; [exact S32|]. eapply suffix_trans; [exact S21|exact S1]. }
+    intros i Hi. simpl.
+    split; [rewrite nth_map_seq by exact Hi; reflexivity|].
+    split.
+    { unfold lam_of. simpl. destruct lamb as [|l0 [|l1 lamb]]; try reflexivity.
+      simpl in Ll. assert (i = 0)%nat by lia. subst. reflexivity. }
+    split.
+    { intros ls Hls. destruct Hys as [E|E]; rewrite E in Hls; inversion Hls; subst.
+      rewrite nth_map_seq by exact Hi. reflexivity. }
+    pose proof (sequence_nth _ _ i 0%Q Eseq) as Hn. rewrite Lw in Hn. specialize (Hn Hi).
+    rewrite (where3_nth _ _ _ _ _ Luc Lcl Lml Hi) in Hn. fold (qnth i lamb) in Hn.
+    split.
+    + intros Ecut. rewrite Ecut in Hn. destruct (Hcut i Hi _ Hn) as [E B]. split; [exact E|].
+      intros Hok Hh. apply B; auto. eapply suffix_ok; [|exact Hok]. eapply suffix_trans; [exact S21|exact S1].
+    + intros Ecut Hok. rewrite Ecut in Hn. apply (Hbeta i Hi _ Hn). eapply suffix_ok; [exact S1|exact Hok].
+Qed.
+
+(* ====================================================================== *)
+(* the theorems                                                           *)
+(* ====================================================================== *)
+Lemma partner_shared_l c hv tr r tr' :
+  collate c hv tr = Some (r, tr') ->
+  forall ls, labs r = Some ls ->
+  forall i, (i < bsz c)%nat -> partner_of (nth i (imgs r) Keep) = Some (fst (nth i ls (0%nat, 0%Q))).
+Proof.
+  intros H ls Hls i Hi. apply collate_inv in H. destruct H as (ps & cut & lam & bx & _ & _ & V).
+  destruct (V i Hi) as (Himg & _ & Hlab & _). rewrite Himg, (Hlab ls Hls). destruct (cut i); reflexivity.
+Qed.
+
+Lemma weight_shared_l c hv tr r tr' :
+  cfg_ok c -> trace_ok tr -> halves_ok hv -> collate c hv tr = Some (r, tr') ->
+  forall i, (i < bsz c)%nat ->
+    (retained_fraction (img_h c) (img_w c) (nth i (imgs r) Keep) == lam_of r i)%Q /\
+    (forall ls, labs r = Some ls -> (snd (nth i ls (0%nat, 0%Q)) == lam_of r i)%Q).
+Proof.
+  intros (_ & _ & _ & _ & Hh & Hw) Hok Hhv H i Hi. apply collate_inv in H.
+  destruct H as (ps & cut & lam & bx & _ & _ & V).
+  destruct (V i Hi) as (Himg & Hlam & Hlab & Hcut & _). rewrite Himg, Hlam. split.
+  - destruct (cut i) eqn:E.
+    + destruct (Hcut eq_refl) as [El Hb]. rewrite El. symmetry.
+      apply lambda_adjusted_is_area_fraction_l; auto.
+    + simpl. reflexivity.
+  - intros ls Hls. rewrite (Hlab ls Hls). simpl. reflexivity.
+Qed.
+
+Lemma bbox_in_bounds_l c hv tr r tr' :
+  trace_ok tr -> halves_ok hv -> collate c hv tr = Some (r, tr') ->
+  forall i p b, (i < bsz c)%nat -> nth i (imgs r) Keep = Cut p b -> box_in_bounds (img_h c) (img_w c) b.
+Proof.
+  intros Hok Hhv H i p b Hi E. apply collate_inv in H. destruct H as (ps & cut & lam & bx & _ & _ & V).
+  destruct (V i Hi) as (Himg & _ & _ & Hcut & _). rewrite Himg in E. destruct (cut i); [|discriminate].
+  inversion E; subst. destruct (Hcut eq_refl) as [_ Hb]. auto.
+Qed.
+
+Lemma lambda_in_unit_l c hv tr r tr' :
+  cfg_ok c -> trace_ok tr -> halves_ok hv -> collate c hv tr = Some (r, tr') ->
+  forall i, (i < bsz c)%nat -> (0 <= lam_of r i)%Q /\ (lam_of r i <= 1)%Q.
+Proof.
+  intros (_ & _ & _ & _ & Hh & Hw) Hok Hhv H i Hi. apply collate_inv in H.
+  destruct H as (ps & cut & lam & bx & _ & _ & V).
+  destruct (V i Hi) as (_ & Hlam & _ & Hcut & Hmix). rewrite Hlam. destruct (cut i).
+  - destruct (Hcut eq_refl) as [-> Hb]. apply lamb_adjusted_range; auto.
+  - apply Hmix; auto.
+Qed.
+
+Lemma mode_partner_lt m n perm i :
+  (i < n)%nat -> (m = Random -> n <> 1%nat -> Permutation perm (seq 0 n)) -> (mode_partner m n perm i < n)%nat.
+Proof.
+  intros Hi HP. unfold mode_partner. destruct (Nat.eqb n 1) eqn:E.
+  - apply Nat.eqb_eq in E. lia.
+  - apply Nat.eqb_neq in E. destruct m.
+    + apply Nat.mod_upper_bound. lia.
+    + lia.
+    + specialize (HP eq_refl E). eapply perm_lt; [exact HP|]. apply nth_In.
+      apply Permutation_length in HP. rewrite seq_length in HP. lia.
+Qed.
+
+Lemma p_follows_mode_l c hv tr r tr' :
+  trace_ok tr -> collate c hv tr = Some (r, tr') ->
+  exists perm, (shuf c = Random -> bsz c <> 1%nat -> In (DPerm perm) tr /\ Permutation perm (seq 0 (bsz c))) /\
+    forall i, (i < bsz c)%nat ->
+      partner_of (nth i (imgs r) Keep) = Some (mode_partner (shuf c) (bsz c) perm i) /\
+      (mode_partner (shuf c) (bsz c) perm i < bsz c)%nat.
+Proof.
+  intros Hok H. apply collate_inv in H. destruct H as (ps & cut & lam & bx & _ & (trA & pm & trB & Hsh & Suf) & V).
+  apply shuffle_partners in Hsh; [|eapply suffix_ok; eauto]. destruct Hsh as (perm & HP & _ & Hn).
+  exists perm. split.
+  - intros E1 E2. destruct (HP E1 E2). split; [eapply suffix_in; eauto|auto].
+  - intros i Hi. destruct (V i Hi) as (Himg & _). rewrite Himg. split.
+    + rewrite <- (Hn i Hi). destruct (cut i); reflexivity.
+    + apply mode_partner_lt; auto. intros E1 E2. apply (HP E1 E2).
+Qed.
+
+(* ---- labels ---- *)
+Lemma mix_row_sum w a b : length a = length b -> (qsum (mix_row w a b) == w * qsum a + (1 - w) * qsum b)%Q.
+Proof.
+  revert b. induction a as [|x a IH]; intros [|y b] L; simpl in *; try lia.
+  - ring.
+  - rewrite IH by lia. ring.
+Qed.
+
+Lemma mix_row_nonneg w a b : (0 <= w)%Q -> (w <= 1)%Q ->
+  Forall (fun x => (0 <= x)%Q) a -> Forall (fun x => (0 <= x)%Q) b -> Forall (fun x => (0 <= x)%Q) (mix_row w a b).
+Proof.
+  intros H0 H1 Fa. revert b. induction Fa as [|x a Hx Fa IH]; intros b Fb; simpl.
+  - constructor.
+  - destruct b as [|y b]; [constructor|]. inversion Fb; subst. constructor; [|apply IH; auto].
+    assert (0 <= w * x)%Q by (apply Qmult_le_0_compat; auto).
+    assert (0 <= (1 - w) * y)%Q by (apply Qmult_le_0_compat; auto; lra).
+    lra.
+Qed.
+
+Definition label_matrix_ok (n : nat) (Y : list (list Q)) : Prop :=
+  exists m, forall k, (k < n)%nat ->
+    length (nth k Y []) = m /\ (qsum (nth k Y []) == 1)%Q /\ Forall (fun x => (0 <= x)%Q) (nth k Y []).
+
+Lemma rows_sum_to_one_l c hv tr r tr' Y :
+  cfg_ok c -> trace_ok tr -> halves_ok hv -> collate c hv tr = Some (r, tr') ->
+  label_matrix_ok (bsz c) Y ->
+  forall ls, labs r = Some ls -> forall i, (i < bsz c)%nat ->
+    let row := render_label Y i (nth i ls (0%nat, 0%Q)) in
+    (qsum row == 1)%Q /\ Forall (fun x => (0 <= x)%Q) row.
+Proof.
+  intros Hc Hok Hhv H (m & HY) ls Hls i Hi.
+  destruct (p_follows_mode_l _ _ _ _ _ Hok H) as (perm & _ & Hp).
+  destruct (Hp i Hi) as [Hpart Hlt].
+  rewrite (partner_shared_l _ _ _ _ _ H ls Hls i Hi) in Hpart. inversion Hpart as [Hfst].
+  destruct (weight_shared_l _ _ _ _ _ Hc Hok Hhv H i Hi) as [_ Hw]. specialize (Hw ls Hls).
+  destruct (lambda_in_unit_l _ _ _ _ _ Hc Hok Hhv H i Hi) as [L0 L1].
+  unfold render_label. cbv zeta. rewrite Hfst.
+  destruct (HY i Hi) as (Li & Si & Fi). destruct (HY _ Hlt) as (Lp & Sp & Fp).
+  split.
+  - rewrite mix_row_sum by lia. rewrite Si, Sp. ring.
+  - apply mix_row_nonneg; auto; rewrite Hw; auto.
+Qed.
+
+(* ---- items other than x / class ---- *)
+Lemma set_at_other {A} k (v : A) l j : j <> k -> nth_error (set_at k v l) j = nth_error l j.
+Proof.
+  revert k j. induction l as [|x l IH]; intros k j Hj; simpl.
+  - destruct k; reflexivity.
+  - destruct k; destruct j; simpl; try reflexivity; try lia. apply IH. lia.
+Qed.
+Lemma set_at_length {A} k (v : A) l : length (set_at k v l) = length l.
+Proof. revert k. induction l; intros [|k]; simpl; auto. Qed.
+Lemma set_at_same {A} k (v : A) l : nth_error l k = Some v -> set_at k v l = l.
+Proof.
+  revert k. induction l as [|x l IH]; intros [|k]; simpl; intros H; try discriminate.
+  - inversion H; reflexivity.
+  - f_equal. auto.
+Qed.
+
+Lemma index_of_sound t mode k : index_of t mode = Some k -> exists t', nth_error mode k = Some t' /\ tok_eqb t t' = true.
+Proof.
+  revert k. induction mode as [|a mode IH]; simpl; intros k H; [discriminate|].
+  destruct (tok_eqb t a) eqn:E.
+  - inversion H; subst. simpl. eauto.
+  - destruct (index_of t mode); [|discriminate]. simpl in H. inversion H; subst. simpl. apply IH. reflexivity.
+Qed.
+
+Lemma tok_eqb_eq a b : tok_eqb a b = true -> a = b.
+Proof. destruct a, b; simpl; try discriminate; auto. intros H. apply Nat.eqb_eq in H. subst; auto. Qed.
+
+(* set_item writes only at a position whose token is the item's name *)
+Lemma set_item_other {A} mode t (batch : list A) v out :
+  set_item mode t batch v = Some out -> (length mode > 1)%nat ->
+  length out = length batch /\
+  forall j t', nth_error mode j = Some t' -> t' <> t -> nth_error out j = nth_error batch j.
+Proof.
+  unfold set_item. destruct mode as [|a [|b mode]]; simpl length; intros H L; try lia.
+  destruct (index_of t (a :: b :: mode)) as [k|] eqn:E; [|discriminate]. inversion H; subst.
+  split; [apply set_at_length|]. intros j t' Hj Hne. apply set_at_other.
+  intros ->. apply index_of_sound in E. destruct E as (t'' & E1 & E2). rewrite Hj in E1. inversion E1; subst.
+  apply tok_eqb_eq in E2. congruence.
+Qed.
+
+Lemma other_items_untouched_l c hv batch tr ob r tr' :
+  collate_batch c hv batch tr = Some ((ob, r), tr') ->
+  (length (tokens c) > 1)%nat ->
+  length ob = length batch /\
+  forall j t, nth_error (tokens c) j = Some t -> t <> TX -> t <> TClass -> nth_error ob j = nth_error batch j.
+Proof.
+  unfold collate_batch. intros H L.
+  bi H idx t0 Hidx. bi H r0 t1 Hr. bi H b1 t2 H1. bi H b2 t3 H2. bi H b3 t4 H3. inversion H; subst ob r tr'. clear H.
+  assert (E1 : b1 = batch).
+  { destruct idx as [v|].
+    - destruct (has_item (tokens c) TIndex); simpl in Hidx.
+      + destruct (get_item (tokens c) TIndex batch) as [v'|] eqn:G; simpl in Hidx; [|discriminate].
+        inversion Hidx; subst v'. unfold get_item in G. unfold set_item in H1.
+        destruct (tokens c) as [|a [|b m]]; simpl in L; try lia.
+        destruct (index_of TIndex (a :: b :: m)); [|discriminate].
+        simpl in H1. inversion H1; subst. apply set_at_same. exact G.
+      + inversion Hidx.
+    - simpl in H1. inversion H1; auto. }
+  subst b1.
+  assert (S2 : set_item (tokens c) TX batch (IX (imgs r0)) = Some b2).
+  { destruct (set_item (tokens c) TX batch (IX (imgs r0))); simpl in H2; inversion H2; auto. }
+  destruct (set_item_other _ _ _ _ _ S2 L) as [L2 O2].
+  destruct (labs r0) as [l|].
+  - assert (S3 : set_item (tokens c) TClass b2 (IY l) = Some b3).
+    { destruct (set_item (tokens c) TClass b2 (IY l)); simpl in H3; inversion H3; auto. }
+    destruct (set_item_other _ _ _ _ _ S3 L) as [L3 O3].
+    split; [lia|]. intros j t Hj Hx Hy. rewrite (O3 j t Hj Hy). apply (O2 j t Hj Hx).
+  - simpl in H3. inversion H3; subst b3.
+    split; [exact L2|]. intros j t Hj Hx Hy. apply (O2 j t Hj Hx).
+Qed.
